@@ -45,6 +45,54 @@ def dec_literals(rnd, n_random):
     return out
 
 
+def colliding(s1, f1):
+    """all (s2, f2) != (s1, f1), f2 a uint8, with  s1 + str(f1) == s2 + str(f2)  (text followed by the decimal precision)"""
+    key = s1 + str(f1)
+    out = []
+    for j in (1, 2, 3):
+        if len(key) <= j:
+            break
+        s2, suf = key[:-j], key[-j:]
+        if not suf.isdigit() or (len(suf) > 1 and suf[0] == "0") or int(suf) > 255:
+            continue
+        if (s2, int(suf)) != (s1, f1):
+            out.append((s2, int(suf)))
+    return out
+
+
+def seq_case(pairs):
+    return "parsedecseq " + " ".join("%s %d" % (hexs(s), fd) for s, fd in pairs)
+
+
+def gen_seq(tier, seed):
+    """histories of parses within one process: what a parse returns must not depend on earlier parses.  Targeted at
+    pairs whose text followed by the precision read the same ("1",12 / "11",2), both orders; plus random histories
+    over a pool in which such pairs (and plain repetitions at another precision) occur by chance"""
+    rnd = random.Random(seed ^ 0x5E9)
+    cases = []
+    lits = ["1", "4", "-0.5", "1.5", "12", "-7", "0.25", "100", "3.", "+2", "0", "9.99", "-0", "123456789.5", "0.1", "11", "-1.51",
+            "41", "0.51", "922337203685477580", "9223372036854775807", "-9223372036854775808", "7.000000000000000001"]
+    fds = list(range(0, 20)) + [25, 100, 101, 118, 181, 255]
+    uniq = 1000
+    for L in lits:
+        for f1 in fds:
+            for variant in (0, 1):
+                s1 = L
+                if variant:      # the same shape with an integer part no other line uses (nothing carried over from other lines)
+                    uniq += 1
+                    sign = L[0] if L[0] in "+-" else ""
+                    s1 = sign + str(uniq) + L[len(sign):]
+                for s2, f2 in colliding(s1, f1):
+                    cases.append(seq_case([(s1, f1), (s2, f2)]))
+                    cases.append(seq_case([(s2, f2), (s1, f1)]))
+                    cases.append(seq_case([(s1, f1), (s2, f2), (s1, f1), (s2, f2)]))
+    pool_s = ["1", "11", "12", "1.1", "1.11", "1.12", "-1", "-11", "2", "21", "0.5", "0.51", "0.58", "4", "41", "1.5", "1.51", "7", "71", "718"]
+    pool_f = [0, 1, 2, 5, 8, 10, 11, 12, 15, 18, 19, 21, 118]
+    for _ in range(4000 if tier == "quick" else 60000):
+        cases.append(seq_case([(rnd.choice(pool_s), rnd.choice(pool_f)) for _i in range(rnd.randint(2, 6))]))
+    return cases
+
+
 def gen(tier, seed):
     rnd = random.Random(seed)
     mags = magnitudes()
@@ -81,6 +129,10 @@ def gen(tier, seed):
     for s in dec_literals(rnd, 300 if tier == "quick" else 5000):
         for fd in (0, 1, 2, 3, 17, 18, 19, 255):
             cases.append("parsedec %s %d" % (hexs(s), fd))
+    cases += gen_seq(tier, seed)
+    # the order in which a process meets the cases is random (fixed by the seed): nothing may be carried from one
+    # call to the next
+    rnd.shuffle(cases)
     return cases
 
 
@@ -90,6 +142,8 @@ def nontrivial(c):
         return t[1] != t[4] or t[2] != t[5]
     if t[0] in ("parseint", "parsedec", "asrangeint"):
         return t[1] != "-"
+    if t[0] == "parsedecseq":
+        return len(t) > 3
     return t[1] != "0"
 
 
@@ -107,11 +161,17 @@ def run(res, tier, seed, proof):
                rule="boundary grid of magnitudes {0,1,9,10,10^k+-1,2^k+-1,2^63-1..2^63+1,2^64-1,..} x sign x fraction-digits 0..18 for "
                     "Int/String/round-trip; all pairs of a reduced grid plus close pairs at mixed precision for Less/Equal; literal "
                     "streams (boundaries around 2^63/2^64, signs, blanks, leading zeros, 17..512 fraction digits, malformed) for "
-                    "ParseInt/ParseDecimal/asRangeInt; non-trivial = operands differ / literal non-empty / magnitude non-zero",
+                    "ParseInt/ParseDecimal/asRangeInt; histories of 2-6 ParseDecimal calls in one process (parsedecseq), exhaustively the "
+                    "pairs (text, precision) whose concatenations text+precision coincide for 23 literals x 26 precisions in both orders, "
+                    "and random histories over a pool where such pairs and repeated texts at other precisions occur; all cases are fed "
+                    "to the processes in a seeded random order; non-trivial = operands differ / literal non-empty / magnitude non-zero "
+                    "/ history of at least two calls",
                mismatches=mism, skipped_unmodelled=skipped, distribution=dict(commands=kinds, impl_outcomes=outs),
                samples=[cases[7], cases[len(cases) // 2], cases[-5]], sample_observations=[go[7], go[len(cases) // 2], go[-5]])
     return cov, ["strconv.ParseUint(base 0)/ParseInt(base 10)/FormatUint and strings.TrimSpace behave as modelled; literals "
-                 "containing ASCII letters or '_' (hex, octal 0o, binary, digit separators) are outside the model and skipped"]
+                 "containing ASCII letters or '_' (hex, octal 0o, binary, digit separators) are outside the model and skipped; "
+                 "the functions are modelled as pure functions: a history of calls is compared call by call with the model applied to "
+                 "each call alone"]
 
 
 def replay(rep, res):
